@@ -317,54 +317,52 @@ E2E_MODES = {"regular": ("regular", modes.HttpProxy), "transparent": ("transpare
 class Check(PropertyCheck):
     prop = "C19"
     design_ref = "§5 C19"
-    level_text = ("Lean theorems (25) over the model of NextLayer._ignore_connection/_get_host_header/_get_client_hello/_next_layer, "
-                  "NextLayer buffering+replay and the TCP/UDP relay, for ALL inputs: verdict_rule / allow_semantics / ignore_semantics "
-                  "(the verdict is exactly the documented rule over the candidate host names; regex search is a parameter), "
-                  "candidates_cover_destinations; host_header_agrees_mixed (regex scanner = RFC 9112 field syntax on EVERY well-formed "
-                  "head whose lines end in CRLF or bare LF in any mixture: FIRST Host field, name case-insensitive, any SP/HTAB on "
-                  "both sides, any position, empty value = no host, any trailing bytes; host_header_agrees_with_spec, "
-                  "host_header_eol_partial, host_header_bare_lf are its instances) with host_header_any_method_partial (every token "
-                  "method starting with three letters, any target) / _counterexample (F-C19c); host_header_prefix_stable / decision_prefix_stable / decision_seg_independent_partial (TCP: verdict at "
-                  "the first deciding segment = verdict on the whole flight for EVERY segmentation once three bytes are there and "
-                  "the deciding prefix does not end inside the request line) / _counterexample (F-C19b); datagram transports: "
-                  "datagram_decision_local (later datagrams are never consulted), dtls_decision_prefix_stable, "
-                  "dtls_decision_seg_independent (a DTLS first flight spread over datagrams gets the verdict of the whole); "
-                  "ignored_is_passthrough (verdict ignore => single relay layer, nothing terminates TLS or parses HTTP, no hook unless "
-                  "show_ignored_hosts; for EVERY event history: relay active => bytes sent to each peer = all bytes received from "
-                  "the other incl. those buffered before the decision and while connecting; before that everything is queued in "
-                  "order) and ignored_is_passthrough_to_the_end (every admissible history that ends with the relay finished: "
-                  "everything received before, between and after the half-closes was delivered in order exactly once, both sides "
-                  "unreadable) with half_close_propagation (EOF -> half-close of the other side once, full close when neither side "
-                  "is readable); not_excluded_is_intercepted / passthrough_only_if_excluded; verdict_uses_options_in_force / "
-                  "verdict_history_independent (ONE addon instance, any history of ignore_hosts/allow_hosts updates and earlier "
-                  "connections: every decision is the decision under the options in force, nothing else is carried over); "
-                  "tls_ignore_passthrough. Model tied to "
-                  "the code at unit level (three functions + stack class over all modes/schemes/options) and end to end through "
-                  "world.py with the real NextLayer addon in regular-CONNECT, transparent (tcp+udp), reverse and SOCKS5 mode, eager "
-                  "and lazy connection strategy (stack class + per-step opens, bytes to both peers, closes, tcp_*/udp_* hooks).")
-    level_note = ("trusted: Lean kernel; hand model tied differentially (validated, not verified). Parameters instantiated in the tie: "
-                  "Python re.search (driver uses literal patterns with optional ^/$ anchors, IGNORECASE, ASCII; first flights "
-                  "containing non-ASCII text that really decodes are skipped because str case folding and \\d are modelled for ASCII "
-                  "only), check.is_valid_host (real function), QUIC ClientHello extraction (real function; exercised, not modelled). "
-                  "ClientHello parsing is Model/C13 (its theorem prefix_stable is imported). PARTIAL, each with the full statement "
-                  "kept, a partial theorem and a proved counterexample: F-C19b (DecisionSegIndependent: first segment ends inside "
-                  "the request line), F-C19c (HostHeaderAgreesAnyMethod: method token not starting with three letters, e.g. "
-                  "M-SEARCH). F-C19d (bare-LF heads never got a verdict) is repaired in /repo 801640255; the scanner model and the "
-                  "scanner/spec agreement were re-established for the lenient scan (general statement host_header_agrees_mixed). "
-                  "known() excuses a failure only if the input is in the finding's class AND the failure is the recorded one "
-                  "(seg-dependent with a host-less verdict for F-C19b; Host header not consulted for F-C19c); known_selftest() runs "
-                  "positive and near-miss triples at every start. The segmentation clause "
-                  "is claimed for TCP; for datagram transports boundaries are chosen by the sender and preserved (no network "
-                  "re-segmentation) and _starts_like_quic looks at the size of what arrived, so different datagram sequences are "
-                  "different inputs (shown by an evaluated example); what remains is proved (datagram_decision_local, dtls_*), QUIC "
-                  "parsing itself is a parameter. ignored_is_passthrough_to_the_end assumes an admissible history (data/EOF only "
-                  "from a readable connection, connect result only while awaited) and, for UDP, that the association does not end "
-                  "before the relay is active (then there is nowhere to relay to; UDPLayer.done swallows later datagrams in code "
-                  "and model alike); a failed connect or a client that closes before any verdict relays nothing. The spec side "
-                  "requires the request line first (no leading empty line). Hook completion is immediate in the tie (events "
-                  "arriving while the next_layer hook is pending are C04's subject). Inside a CONNECT tunnel close events are not "
-                  "driven (HttpStream turns the relay's half-close into a full close: C29's subject). TLS interception after a "
-                  "'not excluded' verdict is observed up to the stack class.")
+    level_text = ("Lean theorems (30) over the model of NextLayer._ignore_connection/_get_host_header/_get_client_hello/_next_layer, "
+                  "NextLayer buffering+replay and the TCP/UDP relay, for ALL inputs and histories. VERDICT: verdict_rule / "
+                  "allow_semantics / ignore_semantics (exactly the documented rule over the candidate host names), "
+                  "candidates_cover_destinations, verdict_uses_options_in_force / verdict_history_independent (one addon instance, "
+                  "any history of option updates). HOST HEADER: host_header_agrees_mixed (regex scanner = RFC 9112 field syntax on "
+                  "EVERY well-formed head, each line ended by CRLF or bare LF in any mixture: FIRST Host field, case-insensitive name, "
+                  "any SP/HTAB, any position, empty = no host, any trailing bytes; _agrees_with_spec, _eol_partial, _bare_lf are "
+                  "instances), host_header_any_method_partial / _counterexample (F-C19c). SEGMENTATION: host_header_prefix_stable, "
+                  "decision_prefix_stable, decision_seg_independent_partial / _total / _counterexample (F-C19b), datagram_decision_local, "
+                  "dtls_decision_prefix_stable, dtls_decision_seg_independent. PASSTHROUGH: ignored_is_passthrough (single relay "
+                  "layer, nothing terminates TLS/parses HTTP, no hook unless show_ignored_hosts, stream equality while relaying, "
+                  "queued in order before), relay_sends_only_what_was_received (EVERY history, no assumption: sent is a prefix of "
+                  "received), ignored_is_passthrough_to_the_end + half_close_propagation (admissible histories through both EOFs), "
+                  "tls_ignore_passthrough. WHOLE CONNECTION: session_decides_where_next_layer_answers, "
+                  "ignored_flight_any_segmentation (flight excluded => for every guarded segmentation the stack is the relay layer "
+                  "and the whole flight is sent or queued in order), not_excluded_flight_any_segmentation, not_excluded_is_intercepted, "
+                  "passthrough_only_if_excluded. Tie: unit level (three functions + stack class over all modes/schemes/options), end "
+                  "to end through world.py with the real NextLayer addon (regular-CONNECT, transparent tcp+udp, reverse, SOCKS5; eager "
+                  "and lazy), histories on one addon instance (driver keeps the options as state), the ClientTLSLayer ignore branch, "
+                  "and the SPEC side (structured heads rendered by the Lean definitions = bytes given to the real code, specHost = "
+                  "its answer). check.is_valid_host is C13's complete transcription inside the driver; KNOWN_QUIC_VERSIONS, "
+                  "TYPICAL_QUIC_PORTS, HTTP_ALPNS and starts_like_* are tables regenerated from the code on every run.")
+    level_note = ("trusted: Lean kernel; hand model tied differentially (validated, not verified). Remaining parameters: Python "
+                  "re.search (driver: literal patterns with optional ^/$ anchors, IGNORECASE, ASCII; first flights with non-ASCII "
+                  "text that really decodes are skipped because str case folding and \\d are modelled for ASCII only) and the QUIC "
+                  "ClientHello parser (aioquic based; real function in the tie, exercised not modelled). ClientHello parsing and "
+                  "is_valid_host are Model/C13* (prefix_stable imported). PARTIAL, each with full statement + partial + proved "
+                  "counterexample: F-C19b (DecisionSegIndependent: deciding prefix ends inside the request line), F-C19c "
+                  "(HostHeaderAgreesAnyMethod: method token not starting with three letters). F-C19a, the cross-line Host scan and "
+                  "F-C19d (bare LF) are repaired in /repo (29b075ea0, e1c95ada5, 801640255). Hypotheses that are assumptions about "
+                  "the environment, not derivable from the model: ignored_is_passthrough_to_the_end needs an admissible history "
+                  "(data/EOF only from a readable connection, connect result only while awaited) and for UDP that the association "
+                  "does not end before the relay is active (UDPLayer.done swallows later datagrams, code and model alike); the "
+                  "guards of the segmentation theorems (three bytes, not inside the request line) are the documented TLS minimum "
+                  "and F-C19b. Segmentation clause: TCP; datagram boundaries are sender-chosen input (_starts_like_quic looks at "
+                  "the size of what arrived; evaluated example), what remains is proved (datagram_decision_local, dtls_*). LENIENT "
+                  "BRANCHES of the code, modelled as they are: fewer than 3 bytes are never TLS; an invalid or non-ClientHello TLS "
+                  "flight, a ValueError of the QUIC parser, a falsy SNI => decided without SNI; server spoke first or UDP => no Host "
+                  "header; Host value with :digits keeps its port, else the connection's port; empty Host = none; the first Host "
+                  "field wins; a leading empty line before the request line or a method not starting with three letters => Host "
+                  "not consulted (the latter is F-C19c, the former is outside the spec side, which puts the request line first); "
+                  "no destination address => never ignored; wireguard 10.0.0.53:53 exempt; a failed connect or a client closing "
+                  "before any verdict relays nothing. known() excuses a failure only for input class AND recorded failure; "
+                  "known_selftest() runs at every start. Hook completion is immediate in the tie (C04's subject); inside a CONNECT "
+                  "tunnel close events are not driven (HttpStream turns half-close into full close: C29's subject); TLS "
+                  "interception after a 'not excluded' verdict is observed up to the stack class.")
     technique = "Lean 4 proof (induction over bytes/events, invariants) + unit-level and end-to-end differential correspondence (world.py, real NextLayer addon)"
     rule = ("hh: request heads built from (request line x Host spelling: name case, 0/1/many SP/HTAB before and after, position "
             "among other fields, absent, empty, duplicate) incl. every prefix of short heads, single-byte mutants and raw bytes; "
@@ -384,7 +382,7 @@ class Check(PropertyCheck):
                     "mitmproxy.proxy.layers.tcp:TCPLayer", "mitmproxy.proxy.layers.udp:UDPLayer",
                     "mitmproxy.proxy.layers.tls:ClientTLSLayer.receive_handshake_data",
                     "mitmproxy.net.tls:starts_like_tls_record", "mitmproxy.net.tls:starts_like_dtls_record"]
-    trusted_base = ["Python re (search, IGNORECASE) as the regex parameter", "mitmproxy.net.check.is_valid_host as the SNI validity parameter",
+    trusted_base = ["Python re (search, IGNORECASE) as the regex parameter", "Model/C13_Nameprep.lean validHostFull as the transcription of check.is_valid_host",
                     "aioquic-based quic_parse_client_hello_from_datagrams as the QUIC parameter",
                     "harness/common/world.py as a stand-in for proxy/server.py's command interpreter",
                     "Model/C13.lean (ClientHello parsing) and its theorem prefix_stable"]
@@ -583,6 +581,16 @@ class Check(PropertyCheck):
         return {"kind": "e2e", "mode": mode, "scheme": rng.pick(["http", "tcp", "https", "tls"]) if not udp else "udp", "strategy": strategy,
                 "cfg": c, "flight": [hx(s) for s in segs], "script": script, "intent": self.ser_intent(intent)}
 
+    def spec_case(self, rng):
+        """the SPECIFICATION side of the Lean development on a structured head: request line, field lines
+        (name, OWS, value, OWS) each with its own line terminator — rendered by the Lean model and by the harness"""
+        def fld():
+            name = rng.weighted([(4, rng.pick(self.NAMES)), (3, rng.pick([b"X-A", b"Accept", b"X-Host", b"Hostx", b"Hos", b"Cookie"]))])
+            val = rng.weighted([(6, self.host_value(rng).strip(b" \t")), (1, b""), (1, b"a b"), (1, b"x\xff")])
+            return {"n": hx(name), "o1": hx(rng.pick(self.OWS)), "v": hx(val), "o2": hx(rng.pick(self.OWS)), "lf": int(rng.chance(0.3))}
+        return {"kind": "spec", "rl_hex": hx(rng.pick(self.REQLINES[:7])), "rl_lf": int(rng.chance(0.3)), "end_lf": int(rng.chance(0.3)),
+                "fields": [fld() for _ in range(rng.randint(0, 4))], "rest_hex": hx(rng.pick([b"", b"BODY", b"\r\n"]))}
+
     def hist_case(self, rng, n_conn=None):
         """a HISTORY on ONE NextLayer instance: option updates (ignore_hosts / allow_hosts set -> other, set -> unset,
         unset -> set, one key or both per update) interleaved with connections to a small pool of destinations, so that
@@ -678,6 +686,8 @@ class Check(PropertyCheck):
             k = rng.weighted([(28, "hh"), (28, "ig"), (18, "nl"), (12, "e2e"), (3, "tlsig"), (11, "hist")])
             if k == "hist":
                 yield self.hist_case(rng); continue
+            if rng.chance(0.04):
+                yield self.spec_case(rng); continue
             if k == "hh":
                 d = self.head(rng, self.host_value(rng))
                 full = d
@@ -713,6 +723,7 @@ class Check(PropertyCheck):
         if k == "e2e": return self.impl_e2e(case)
         if k == "tlsig": return self.impl_tlsig(case)
         if k == "hist": return self.impl_hist(case)
+        if k == "spec": return self.impl_spec(case)
         raise Skip()
 
     def impl_hh(self, case):
@@ -878,6 +889,25 @@ class Check(PropertyCheck):
                 res.append((st, ig, al))
         return res
 
+    @staticmethod
+    def render_spec(case):
+        eol = lambda lf: b"\n" if lf else b"\r\n"
+        d = unhx(case["rl_hex"]) + eol(case["rl_lf"])
+        for f in case["fields"]:
+            d += unhx(f["n"]) + b":" + unhx(f["o1"]) + unhx(f["v"]) + unhx(f["o2"]) + eol(f["lf"])
+        return d + eol(case["end_lf"])
+
+    def impl_spec(self, case):
+        class C: pass
+        c = C(); c.client = C(); c.client.transport_protocol = "tcp"
+        d = self.render_spec(case)
+        try:
+            r = NextLayer._get_host_header(c, d + unhx(case["rest_hex"]), b"")
+            r = None if r is None else hx(enc(r))
+        except NeedsMoreData:
+            r = "need"
+        return {"rendered": hx(d), "hh": r}
+
     def impl_tlsig(self, case):
         from mitmproxy.proxy.layers.tls import TlsClienthelloHook
         nl = NextLayer()
@@ -957,6 +987,14 @@ class Check(PropertyCheck):
             return fails
         if k == "e2e":
             return self.oracle_e2e(case, obs)
+        if k == "spec":
+            d = unhx(obs["rendered"]) + unhx(case["rest_hex"])
+            sp = spec_host(d)
+            if sp[0] == "ok":
+                want = None if sp[1] is None else hx(sp[1])
+                if obs["hh"] != want:
+                    fails.append(f"host: head {d!r}: HTTP defines Host = {sp[1]!r}, _get_host_header gives {obs['hh']!r}")
+            return fails
         if k == "hist":
             # every connection is judged by the allow/ignore rules in force when it is decided
             for i, ((st, ig, al), o) in enumerate(zip(self.hist_options(case), obs["conns"])):
@@ -1186,6 +1224,10 @@ class Check(PropertyCheck):
             return ["run " + " ".join(self.cfg_fields(cfg, first if whole.startswith(first) else whole)) + f" {obs['connected']} " + " ".join(obs["events"])]
         if k == "tlsig":
             return ["tls " + " ".join([str(case["dtls"])] + case["flight"] + case["after"])]
+        if k == "spec":
+            if outside_model(dec(self.render_spec(case))): raise Skip()
+            return ["spec %s %d %d " % (case["rl_hex"], case["rl_lf"], case["end_lf"]) +
+                    " ".join("%s:%s:%s:%s:%d" % (f["n"], f["o1"], f["v"], f["o2"], f["lf"]) for f in case["fields"])]
         if k == "hist":
             lines = ["hreset"]
             for st in case["steps"]:
@@ -1213,6 +1255,8 @@ class Check(PropertyCheck):
         if k == "tlsig":
             st, _, l = replies[0].partition(" ")
             return [st, l]
+        if k == "spec":
+            return replies[0]
         if k == "hist":
             return [r for r in replies if r != "ok"]
         return replies
@@ -1237,6 +1281,9 @@ class Check(PropertyCheck):
             return {"stack": stack, "steps": obs["steps"]}
         if k == "tlsig":
             return [obs["state"], ",".join(obs["toServer"]) if obs["toServer"] else "."]
+        if k == "spec":
+            # the Lean rendering of the structured head = the bytes given to the real code, and specHost = the real answer
+            return obs["rendered"] + " " + ("none" if obs["hh"] is None else obs["hh"] if obs["hh"] == "need" else "some " + obs["hh"])
         if k == "hist":
             return ["need" if (o["dec"] == "need" or o["stack"] == "need") else "ok %d %s" % (o["dec"], ",".join(o["stack"])) for o in obs["conns"]]
         return obs
@@ -1270,6 +1317,8 @@ class Check(PropertyCheck):
             if "err" in obs["events"]: out.append("e2e:connect-failed")
         elif k == "tlsig":
             out.append("tlsig:" + obs["state"])
+        elif k == "spec":
+            out.append("spec:fields=%d" % len(case["fields"])); out.append("spec:" + ("need" if obs["hh"] == "need" else "none" if obs["hh"] is None else "some"))
         elif k == "hist":
             opts = self.hist_options(case)
             out.append("hist:conns=%d" % min(len(opts), 8))
